@@ -3,10 +3,13 @@ C11 — packing a directory is independent of the host's enumeration order.
 
 The theorems are about `Sqfs.FsTree` (Sqfs/Model/FsTree.lean), the model of
 dir_unix.c → dir_rec.c → dir_hl.c → dir_tree_iterator.c → glob.c:scan_directory → fstree.c → post_process.c.
-`sorted = true` is the model of the tree with fixes/C11-sorted-readdir.patch (native iterator sorts every
-directory); `sorted = false` is the code as pinned, for which the full statement is false (Sqfs/Witness/C11.lean).
+`sorted = true` is the code in /repo (the native iterator collects the names of a directory and `qsort`s them with
+`strcmp`, /repo 7ff9210); `sorted = false` is the iterator without that `qsort` call, for which the full statement is
+false (Sqfs/Witness/C11.lean) — the theorems about that older code are a frozen record in Sqfs/Proofs/C11Pinned/.
 -/
 import Sqfs.Proofs.FsTreeSorted
+import Sqfs.Proofs.FsTreeSortFile
+import Sqfs.Proofs.FsTreeScanLinks
 
 namespace Sqfs.C11
 open Sqfs.FsTree
@@ -24,11 +27,67 @@ theorem insertSorted_sorted (n : TNode) (cs : List TNode) (hs : SortedNames (cs.
     SortedNames ((insertSorted n cs).map TNode.name) ∧ (insertSorted n cs).Perm (n :: cs) :=
   ⟨insertBy_sorted TNode.name n cs hs hnew, insertBy_perm TNode.name n cs⟩
 
+/-! ### the native iterator (dir_unix.c): `compare_names`, `read_names` -/
+
+/-- `compare_names` (= `strcmp` on the unsigned bytes of the two names) is a consistent strict total order — what ISO C
+requires of a `qsort` comparison function for the result to be defined: antisymmetric, zero exactly on equal names,
+transitive. -/
+theorem compare_names_total_order (a b c : HNode) :
+    (0 < compareNames a b ↔ compareNames b a < 0) ∧ (compareNames a b = 0 ↔ a.name = b.name) ∧
+    (compareNames a b < 0 → compareNames b c < 0 → compareNames a c < 0) := by
+  refine ⟨strcmpC_swap _ _, strcmpC_eq_zero_iff _ _, ?_⟩
+  intro h1 h2
+  exact (strcmpC_neg_iff _ _).mpr (nameLt_trans ((strcmpC_neg_iff _ _).mp h1) ((strcmpC_neg_iff _ _).mp h2))
+
+/-- `read_names` leaves `it->names` a permutation of what `readdir` returned, strictly ascending under
+`compare_names` — for a stream of any length (no bound, no batches), names of any length. -/
+theorem read_names_sorted (stream : List HNode) (hnd : (stream.map HNode.name).Nodup) :
+    (readNames true stream).Perm stream ∧ (readNames true stream).Pairwise (fun a b => compareNames a b < 0) := by
+  rw [readNames_true]
+  refine ⟨sortByName_perm_self stream, ?_⟩
+  have h := sortByName_sorted stream hnd
+  unfold SortedNames at h
+  rw [List.pairwise_map] at h
+  exact h.imp (fun hab => (strcmpC_neg_iff _ _).mpr hab)
+
+/-- The order `read_names` serves does not depend on the order in which `readdir` returned the entries. -/
+theorem read_names_perm {s₁ s₂ : List HNode} (hp : s₁.Perm s₂) (hnd : (s₁.map HNode.name).Nodup) :
+    readNames true s₁ = readNames true s₂ := by
+  rw [readNames_true, readNames_true]
+  exact sortByName_perm hp hnd
+
+/-- The model's choice of sorting algorithm is immaterial: **every** `qsort` that conforms to ISO C (returns a
+permutation that is non-descending under the comparison function) leaves exactly the list the model computes. -/
+theorem qsort_any_conforming (stream r : List HNode) (hnd : (stream.map HNode.name).Nodup) (hperm : r.Perm stream)
+    (hsorted : r.Pairwise (fun a b => compareNames a b ≤ 0)) : r = readNames true stream := by
+  rw [readNames_true]
+  have hndr : (r.map HNode.name).Nodup := (hperm.map HNode.name).nodup_iff.mpr hnd
+  have hr : r.Pairwise (fun a b => nameLt a.name b.name = true) := by
+    have hne : r.Pairwise (fun a b => a.name ≠ b.name) := by
+      rw [List.Nodup, List.pairwise_map] at hndr; exact hndr
+    refine (hsorted.and hne).imp ?_
+    rintro a b ⟨hle, hne⟩
+    apply (strcmpC_neg_iff _ _).mp
+    have : compareNames a b ≠ 0 := fun h0 => hne ((strcmpC_eq_zero_iff _ _).mp h0)
+    simp only [compareNames] at hle this
+    omega
+  have hs : (sortByName stream).Pairwise (fun a b => nameLt a.name b.name = true) := by
+    have h := sortByName_sorted stream hnd
+    unfold SortedNames at h
+    rwa [List.pairwise_map] at h
+  exact sorted_perm_unique (hperm.trans (sortByName_perm_self stream).symm) hr hs
+
+/-! ### the scan as a whole -/
+
 /-- **Full statement.**  For two enumerations of one directory forest that differ by a permutation inside each
-directory (`FPerm`, any depth), `gensquashfs --pack-dir` computes the same tree, the same inode numbering and the
-same file list (hence, with C02, the same bytes) — for every forest (multiply-linked files included), every
-option set (`-H`, `-o`, `-k`, forced ids, type masks, name patterns) and every `fnmatch`.
-Holds for the repaired native iterator. -/
+directory (`FPerm`, any depth, any number of entries, names of any length), the model of `gensquashfs --pack-dir` —
+`read_names` with `compare_names` in every directory, the recursive iterator, the hard-link filter, the
+`dir_tree_iterator` filters, `scan_directory` with `fstree_add_generic`, `fstree_post_process` — computes the same tree,
+the same inode numbering and the same file list, for every forest (multiply-linked files included), every option set
+(`-H`, `-o`, `-k`, forced ids, type masks, name patterns) and every `fnmatch`.
+How the proof goes: `read_names` makes the enumeration that reaches the layers above a function of the *set* of entries
+of each directory (`read_names_perm`, lifted to forests by `nativeOrder_sorted_fperm`); everything above is a function of
+that enumeration. -/
 theorem scan_perm_invariant {e₁ e₂ : List HNode} (h : FPerm e₁ e₂) (hwf : WFList e₁)
     (d : Defaults) (cfg : Cfg) (fnm : Fnm) (rootDev : Nat) :
     packDir true d cfg fnm rootDev e₁ = packDir true d cfg fnm rootDev e₂ := by
@@ -43,54 +102,47 @@ theorem scan_perm_invariant_glob {e₁ e₂ : List HNode} (h : FPerm e₁ e₂) 
   unfold globInto scanInto
   rw [nativeOrder_sorted_fperm h hwf]
 
-/-- **The code as pinned** (`sorted = false`: readdir order reaches the hard-link filter unchanged).
-The full statement is false for it (`Sqfs.Witness.C11.scan_order_dependent`); what is missing is exactly the case
-"some file has more than one name inside the scanned forest and hard-link detection is on".  Outside that case —
-`-H`/`-nohardlinks`, or pairwise different `(st_dev, st_ino)` of the non-directories — tree, inode numbering and
-file list do not depend on the enumeration, for every forest, every option set and every `fnmatch`. -/
-theorem scan_perm_invariant_partial {e₁ e₂ : List HNode} (h : FPerm e₁ e₂) (hwf : WFList e₁)
-    (d : Defaults) (cfg : Cfg) (fnm : Fnm) (rootDev : Nat)
-    (hno : hasFlag cfg.flags Consts.dirScanNoHardlinks = true ∨ NoMultiLink e₁) :
-    packDir false d cfg fnm rootDev e₁ = packDir false d cfg fnm rootDev e₂ := by
-  unfold packDir
-  rw [scanInto_false_fperm d cfg fnm rootDev h hwf hno]
+/-- Data placement: the sequence in which `pack_files` hands the regular files (with their block-processor flags) to
+the block processor — the file list, after `fstree_sort_files` when a sort file (`-S`) is given — is the same for both
+enumerations, for every sort file. -/
+theorem pack_order_invariant {e₁ e₂ : List HNode} (h : FPerm e₁ e₂) (hwf : WFList e₁)
+    (d : Defaults) (cfg : Cfg) (fnm : Fnm) (rootDev : Nat) (sortfile : Option (List SortRule)) :
+    packOrder true d cfg fnm rootDev e₁ sortfile = packOrder true d cfg fnm rootDev e₂ sortfile := by
+  unfold packOrder
+  rw [scan_perm_invariant h hwf]
 
-/-- … and the same for a `glob` line on top of any tree built so far. -/
-theorem scan_perm_invariant_glob_partial {e₁ e₂ : List HNode} (h : FPerm e₁ e₂) (hwf : WFList e₁)
-    (d : Defaults) (cfg : Cfg) (fnm : Fnm) (rootDev : Nat) (target : Path) (tree : TNode) (links : List Path)
-    (hno : hasFlag cfg.flags Consts.dirScanNoHardlinks = true ∨ NoMultiLink e₁) :
-    globInto false d cfg fnm rootDev e₁ target tree links = globInto false d cfg fnm rootDev e₂ target tree links := by
-  unfold globInto
-  cases mkdirImplicit d target tree with
-  | none => rfl
-  | some t1 =>
-    simp only
-    cases lookup t1 target with
-    | none => rfl
-    | some r =>
-      simp only
-      split
-      · rfl
-      · exact scanInto_false_fperm d cfg fnm rootDev h hwf hno t1 links
-
-/-- The repair does not change what the pinned code computes where that was well defined: outside the multiply-linked
-case the repaired and the pinned scan agree on every enumeration (so no image that did not depend on the readdir
-order changes a byte — the constraint of DESIGN.md §6 on a repair of D16). -/
-theorem repair_conservative (e : List HNode) (hwf : WFList e) (d : Defaults) (cfg : Cfg) (fnm : Fnm) (rootDev : Nat)
-    (hno : hasFlag cfg.flags Consts.dirScanNoHardlinks = true ∨ NoMultiLink e) :
-    packDir true d cfg fnm rootDev e = packDir false d cfg fnm rootDev e := by
-  have h := scan_perm_invariant_partial (fperm_nativeOrder e) hwf d cfg fnm rootDev hno
-  rw [h]
-  rfl
+/-- `fstree_sort_files` (gensquashfs `-S`) hands `pack_files` exactly the files of the file list (none lost, none twice), in
+non-descending priority, and the files of one priority in the order they have in the file list (the sort is stable) —
+whatever the sort file says and whatever `fnmatch` does.  Together with `pack_order_invariant`: the order of the file
+data is fixed by file list + sort file. -/
+theorem sort_files_perm_sorted_stable (fnm : Fnm) (rules : List SortRule) (files : List Path) :
+    ((sortFiles fnm rules files).map (·.path)).Perm files ∧
+      (sortFiles fnm rules files).Pairwise (fun a b => a.prio ≤ b.prio) ∧
+      ∀ q : Int, List.Sublist (((sortFiles fnm rules files).filter (fun f => f.prio = q)).map (·.path)) files :=
+  sortFiles_perm_sorted fnm rules files
 
 /-- Inode numbers and the file list are functions of the (sorted) tree alone: `fstree_post_process` — hard-link
 resolution with its link counts, `alloc_inode_num_dfs`, `reorder_hard_links`, `file_list_dfs` — gives the same result
 for every order of the `links_unresolved` list, the one piece of state next to the tree that records the order in which
 entries arrived.  Hypothesis `FlatLinks`: every pending link names an existing node that is neither a directory nor a
-link itself — what the hard-link filter hands out (it only ever records primary names). -/
+link itself.  `pack_dir_links_order_free` below discharges it for what a `--pack-dir` scan produces. -/
 theorem numbering_deterministic {links₁ links₂ : List Path} (hp : links₁.Perm links₂) (tree : TNode)
     (hflat : FlatLinks tree links₁) : postProcess tree links₁ = postProcess tree links₂ :=
   postProcess_perm hp tree hflat
+
+/-- `FlatLinks` discharged for the scan: whatever `gensquashfs --pack-dir` (no prefix, fresh tree) leaves in
+`links_unresolved` — for every forest, every enumeration, every option set, with or without the `qsort` in the native
+iterator — post-processing gives the same tree, inode numbers and file list for **every** order of that list.  (Every
+pending link points at the path the hard-link filter recorded for the first name of the file; at that path there is the
+node made from that first name, or — when `scan_directory` dropped that name because its parent directory is not in the
+tree — nothing, in which case `fstree_post_process` fails for every order: `Sqfs.FsTree.scanInto_links`, `postProcess_perm'`.)  So the only way the readdir order can reach
+inode numbers and file list is through the *tree* (which name of a file became the real one) — the part `read_names`
+fixes. -/
+theorem pack_dir_links_order_free {sorted : Bool} {d : Defaults} {cfg : Cfg} {fnm : Fnm} {rootDev : Nat} {e : List HNode}
+    {t : TNode} {links links' : List Path} (hpfx : cfg.pfx = []) (hwf : WFList e)
+    (h : scanInto sorted d cfg fnm rootDev e (initRoot d) [] = some (t, links)) (hp : links.Perm links') :
+    postProcess t links = postProcess t links' :=
+  postProcess_perm' hp t (scanInto_links hpfx hwf h)
 
 /-- Whatever the enumeration order, the options and the iterator (pinned or repaired): the tree `--pack-dir` hands to
 the serialiser has **every** directory strictly sorted by `strcmp` (so names are pairwise different and the order of
@@ -150,16 +202,6 @@ example : FPerm [fa, fb, fc, dd [fa, fb]] [dd [fb, fa], fc, fb, fa] := by
 example : WFList [fa, fb, fc, dd [fa, fb]] := by
   simp [WFList, WFNode, HNode.name, fa, fb, fc, dd]
 
-/-- `NoMultiLink` holds of a forest without the second name `c` … -/
-example : NoMultiLink [fa, fb, dd [fe]] ∧ WFList [fa, fb, dd [fe]] := by
-  refine ⟨?_, ?_⟩
-  · simp [NoMultiLink, keysList, keysNode, fa, fb, fe, dd, st, isDirMode, isType, Consts.sIFMT, Consts.sIFDIR]
-  · simp [WFList, WFNode, HNode.name, fa, fb, fe, dd]
-
-/-- … and fails of the witness forest (so `scan_perm_invariant_partial` does not contradict the witness) -/
-example : ¬ NoMultiLink [fa, fb, fc] := by
-  simp [NoMultiLink, keysList, keysNode, fa, fb, fc, st, isDirMode, isType, Consts.sIFMT, Consts.sIFDIR]
-
 /-- `FlatLinks` holds of what the scan of `{a, b, c, e | a = c = e}` leaves behind: two pending links, both to `a` -/
 private def wcfg : Cfg :=
   { flags := Consts.dirScanKeepUid ||| Consts.dirScanKeepGid ||| Consts.dirScanKeepMode, defUid := 0,
@@ -179,11 +221,46 @@ example : FlatLinks wscan.1 wscan.2 := by
   · exact ⟨[[0x61]], flatAt_of_flatAtB (by decide)⟩
   · exact ⟨[[0x61]], flatAt_of_flatAtB (by decide)⟩
 
+/-- the hypotheses of `pack_dir_links_order_free` are satisfiable (the scan above: two pending links) … -/
+example : wcfg.pfx = [] ∧ WFList [fa, fb, fc, fe'] ∧
+    (scanInto true wd wcfg (fun _ _ _ => true) 1 [fa, fb, fc, fe'] (initRoot wd) []).isSome = true := by
+  refine ⟨rfl, ?_, by decide⟩
+  simp [WFList, WFNode, HNode.name, fa, fb, fc, fe']
+/-- … and its "dangling" branch is real: with directories filtered out (`DIR_SCAN_NO_DIR`, recursion goes on) `d/a` passes
+the filters and is remembered by the hard-link filter, but `scan_directory` drops it (its parent is not in the tree); the
+second name `e` then points at nothing and post-processing fails (for every order) -/
+example : (scanInto true wd { wcfg with flags := wcfg.flags ||| Consts.dirScanNoDir } (fun _ _ _ => true) 1 [dd [fa], fe']
+        (initRoot wd) []).isSome = true ∧
+    (packDir true wd { wcfg with flags := wcfg.flags ||| Consts.dirScanNoDir } (fun _ _ _ => true) 1 [dd [fa], fe']).isNone = true := by
+  decide
+
 /-- the scan of the witness forest succeeds (hypothesis of `scan_tree_sorted`), with either iterator -/
 example : (packDir true wd wcfg (fun _ _ _ => true) 1 [fc, fb, fa]).isSome = true := by decide
 example : (packDir false wd wcfg (fun _ _ _ => true) 1 [fc, fb, fa]).isSome = true := by decide
 
 example : (insertSorted (.mk [0x62] default []) [.mk [0x61] default [], .mk [0x63] default []]).map TNode.name
     = [[0x61], [0x62], [0x63]] := by decide
+
+/-- `compare_names` compares unsigned bytes (0x80 sorts behind 0x7f) and a proper prefix sorts first -/
+example : compareNames (.mk [0x61, 0x80] default [] []) (.mk [0x61, 0x7f] default [] []) > 0 ∧
+    compareNames (.mk [0x61] default [] []) (.mk [0x61, 0x01] default [] []) < 0 := by decide
+
+/-- `read_names` on a stream with ".", ".." and three names in some order; its hypotheses are satisfiable -/
+private def nm (n : Name) : HNode := .mk n default [] []
+example : (readNames true [nm [0x63], nm [0x2e, 0x2e], nm [0x61, 0xff], nm [0x2e], nm [0x61]]).map HNode.name
+    = [[0x2e], [0x2e, 0x2e], [0x61], [0x61, 0xff], [0x63]] := by decide
+example : ([nm [0x63], nm [0x2e, 0x2e], nm [0x61, 0xff], nm [0x2e], nm [0x61]].map HNode.name).Nodup := by decide
+/-- a conforming `qsort` result in the sense of `qsort_any_conforming` -/
+example : [nm [0x61], nm [0x62]].Perm [nm [0x62], nm [0x61]] ∧
+    [nm [0x61], nm [0x62]].Pairwise (fun a b => compareNames a b ≤ 0) := by
+  refine ⟨List.Perm.swap _ _ _, ?_⟩
+  simp only [List.pairwise_cons, List.mem_cons, List.not_mem_nil, or_false, forall_eq, List.Pairwise.nil, and_true,
+    false_imp_iff, implies_true]
+  decide
+
+/-- `fstree_sort_files`: a literal line, a glob line, files of equal priority keep their order -/
+example : (sortFiles (fun p s _ => p == s || p == [0x2a]) [⟨5, 4, false, false, [0x62]⟩, ⟨-1, 0, true, true, [0x2a]⟩]
+    [[[0x61]], [[0x62]], [[0x63]]]).map (fun f => (f.path, f.prio, f.flags))
+    = [([[0x61]], -1, 0), ([[0x63]], -1, 0), ([[0x62]], 5, 4)] := by decide
 
 end Sqfs.C11
